@@ -162,3 +162,164 @@ class bkern_tokenize:
 
     def post_is_stripped_bekern(result, self, token):
         return result == plain(token, basic_spec(token, in_cats(self)), False)
+
+
+# ------------------------------------------------------------------------------------------------------- agnostic tokenizers
+from contracts.spec_staff import agn_text, CLEF_OF, BOTTOM
+from contracts.shapes import mk_header_token, HEADER_TYPES
+from kernpy.core.exporter import HeaderTokenGenerator, Exporter
+
+
+@contract(TZ + 'AEKernTokenizer.tokenize.<locals>.callback_convert_pitch_subtoken_to_agnostic', props=ALLP + ['C10'], name='aekern_callback',
+          assumed='function summary of the nested converter: an uninterpreted function AGN_<clef class> of the pitch letters (ValueError without a clef); '
+                  'its value on every Humdrum spelling under every supported clef is proved on the real body by the C10 lemma callback_meaning')
+class aekern_callback:
+    """The converter the agnostic tokenizers hand to Token.export: abstractly AGN_<clef>(letters).  Its meaning on every
+    Humdrum spelling is proved on the real body by the lemma `callback_meaning` (C10); here it is used as a function symbol."""
+    def raises(clef):
+        return {'ValueError': clef is None}
+
+    def model(pitch_subtoken, clef):
+        return agn_text(type(clef).__name__, pitch_subtoken)
+
+
+def clef_encoding(g):
+    # three representative clefs are enough here: the tokenizer only forwards the clef encoding (create_clef itself is
+    # verified for every sign / line / octave marks in C10)
+    sign, line = g.choice('clef', [('G', 2), ('F', 4), ('C', 3)])
+    return sign, line, '*clef' + sign + '^' * g.int('marks_up', 0) + 'v' * g.int('marks_down', 0) + str(line)
+
+
+def agnostic_inputs(g, cls):
+    kind = g.choice('token', TOKEN_KINDS)
+    cats = g.enum_set('cats', TokenCategory)
+    has_clef = g.choice('has_clef', [True, False])
+    sign, line, enc = clef_encoding(g)
+    g.assume((sign, line) in CLEF_OF)
+    # chords without a clef in force are not covered by this contract (the converter raises inside the per-note loop, which
+    # the per-element rule cannot express); single notes without a clef are covered
+    g.assume(has_clef or kind != 'chord')
+    return {'self': g.new(cls, {'token_categories': cats, 'last_clef': enc if has_clef else None}, None),
+            'token': mk_any_token(g, kind)}
+
+
+def clef_class_name(enc):
+    """class of the clef an interpretation such as '*clefGv2' denotes: sign letter and line digit, octave marks ignored"""
+    if enc is None:
+        return None
+    body = enc.replace('*clef', '')
+    sign = [c for c in body if c in 'GFC'][0]
+    line = int([c for c in body if c in '12345'][0])
+    return CLEF_OF[(sign, line)]
+
+
+def needs_conversion(token, keep):
+    """some note of the token has pitch letters that are selected (then the converter is invoked)"""
+    kind = type(token).__name__
+    if kind == 'NoteRestToken':
+        return len([s for s in token.pitch_duration_subtokens if conj(s.category == TokenCategory.PITCH, keep(s.category))]) > 0
+    if kind == 'ChordToken':
+        return len([n for n in token.notes_tokens
+                    if len([s for s in n.pitch_duration_subtokens if conj(s.category == TokenCategory.PITCH, keep(s.category))]) > 0]) > 0
+    return False
+
+
+def aekern_text(self, token):
+    clef = clef_class_name(self.last_clef)
+    return export_spec(token, in_cats(self), lambda s: agn_text(clef, s))
+
+
+@contract(TZ + 'AEKernTokenizer.tokenize', props=ALLP + ['C10'])
+class aekern_tokenize:
+    """aekern(token) == Export(token, selection, AGN_clef): identical to ekern except that the selected pitch letters of every
+    note are converted under the clef in force; ValueError when a pitch must be converted and no clef is known"""
+    def inputs(g):
+        return agnostic_inputs(g, AEKernTokenizer)
+
+    modifies = ()
+
+    def post_is_export_with_converter(result, self, token):
+        return result == aekern_text(self, token)
+
+    def raises(self, token):
+        return {'ValueError': conj(self.last_clef is None, needs_conversion(token, in_cats(self)))}
+
+    def model(self, token):
+        return aekern_text(self, token)
+
+
+@contract(TZ + 'AKernTokenizer.tokenize', props=ALLP + ['C10'])
+class akern_tokenize:
+    def inputs(g):
+        return agnostic_inputs(g, AKernTokenizer)
+
+    modifies = ()
+
+    def post_is_stripped_aekern(result, self, token):
+        return result == plain(token, aekern_text(self, token))
+
+    def raises(self, token):
+        return {'ValueError': conj(self.last_clef is None, needs_conversion(token, in_cats(self)))}
+
+
+from kernpy.core.gkern import ClefFactory
+
+
+# ------------------------------------------------------------------------------------------------------- factory / headers
+ENC_VALUES = ['ekern', 'kern', 'bkern', 'bekern', 'aekern', 'akern']
+TOKENIZER_OF = {'ekern': 'EkernTokenizer', 'kern': 'KernTokenizer', 'bkern': 'BkernTokenizer', 'bekern': 'BekernTokenizer',
+                'aekern': 'AEKernTokenizer', 'akern': 'AKernTokenizer'}
+PREFIX_OF = {'eKern': 'e', 'normalizedKern': '', 'bKern': 'b', 'bEkern': 'be', 'agnosticKern': 'a', 'agnosticExtendedKern': 'ae'}
+
+
+@contract(TZ + 'TokenizerFactory.create', props=ALLP + ['C10'])
+class tokenizer_factory:
+    """total on the six encoding values (ValueError otherwise); the tokenizer carries the category selection as a set and,
+    for the agnostic ones, the encoding of the clef in force"""
+    def inputs(g):
+        shape = g.choice('cats.shape', ['set', 'list'])
+        clef = g.choice('clef', ['none', 'token'])
+        return {'cls': TokenizerFactory, 'type': g.choice('type', ENC_VALUES + ['xkern', None]),
+                'token_categories': g.enum_set('cats', TokenCategory, shape),
+                'last_clef_reference': None if clef == 'none' else mk_simple_like(g, 'ClefToken', 'clef')}
+
+    modifies = ()
+
+    def post_class(result, type):
+        return result.__class__.__name__ == TOKENIZER_OF[type]
+
+    def post_categories(result, token_categories):
+        return result.token_categories == set(token_categories)
+
+    def post_clef(result, type, last_clef_reference):
+        if type not in ('aekern', 'akern'):
+            return True
+        return result.last_clef == (None if last_clef_reference is None else last_clef_reference.encoding)
+
+    def raises(type):
+        return {'ValueError': type not in ENC_VALUES}
+
+
+@contract(TZ + 'Encoding.prefix', props=ALLP)
+class encoding_prefix:
+    def inputs(g):
+        return {'self': g.enum('encoding', Encoding)}
+
+    def post_prefix(result, self):
+        return result == PREFIX_OF[self.name]
+
+    def model(self):
+        return PREFIX_OF[self.name]
+
+
+@contract('kernpy.core.exporter.HeaderTokenGenerator.new', props=ALLP)
+class header_generator:
+    """'**' + encoding prefix + original type, same spine id; the document's header token is not touched"""
+    def inputs(g):
+        return {'cls': HeaderTokenGenerator, 'token': mk_header_token(g, 'hdr', HEADER_TYPES), 'type': g.enum('encoding', Encoding)}
+
+    modifies = ()
+
+    def post_header(result, token, type):
+        return conj(result.encoding == '**' + PREFIX_OF[type.name] + token.encoding[2:], result.spine_id == token.spine_id,
+                    result.category == TokenCategory.HEADER, result is not token)
